@@ -89,7 +89,9 @@ def run(ctx: Ctx) -> None:
         cd = HDict({1: C("l1"), 2: C("l2"), 5: C("l5"), 9: C("l9"), 11: C("l11"), 13: C("l13"), 20: C("l20")})
         inst.attrs["comments_dict"] = cd
         h["nodes"], h["cd"] = nodes, cd
-        return inst, [root], {}
+        # the pending table is an attribute of the parser; a version that also takes it as a parameter gets the same object
+        extra = {"comments_dict": cd} if "comments_dict" in {a.arg for a in repo.func("parser.Parser._assign_comments").args.args} else {}
+        return inst, [root], extra
 
     I2 = e.interp(allow_fork=False, max_depth=30)
     outs = I2.explore("parser.Parser._assign_comments", make2)
@@ -114,9 +116,8 @@ def run(ctx: Ctx) -> None:
     I3 = e.interp(stubs={"ext:Transformer.transform": main_transform}, allow_fork=False)
 
     def ctinst():
-        inst = pai.Inst("transformer.CommentsTransformer")
-        inst.attrs["_mapfile_todict"] = I3.instantiate("transformer.MapfileTransformer", [], {"include_comments": True})
-        return inst
+        # through the real constructor, so that the attribute holding the main transformer may be renamed
+        return I3.instantiate("transformer.CommentsTransformer", [I3.instantiate("transformer.MapfileTransformer", [], {"include_comments": True})], {})
 
     def pair(keytext, comments, quoted=True):
         if quoted:
